@@ -143,6 +143,7 @@ func init() {
 			{Name: "files", TShards: 2, Run: c04Files},
 			{Name: "refuse", Run: c04Refuse},
 			{Name: "long", TShards: 4, Run: c04Long},
+			{Name: "sizes", TShards: 6, Run: c04Sizes},
 		},
 	})
 }
@@ -271,5 +272,44 @@ func c04Long(c *Ctx) {
 			k.Count("records_roundtripped", int64(nr))
 			k.Nontrivial(text.Bytes())
 		})
+	}
+}
+
+// c04Sizes sweeps name lengths densely around multiples of the usual buffer sizes.
+func c04Sizes(c *Ctx) {
+	spans := [][2]int{{3950, 4200}}
+	if c.Thorough {
+		spans = [][2]int{{3900, 4250}, {8000, 8300}, {16200, 16500}, {65300, 65700}}
+	}
+	idx := int64(0)
+	for _, sp := range spans {
+		for l := sp[0]; l <= sp[1]; l++ {
+			c.Case(idx, func(k *K) {
+				r := k.Rand()
+				nf := 4 + r.IntN(9)
+				first := genBED(r, nf)
+				first.Name = string(longText(r, l, nil))
+				second := genBED(r, nf)
+				k.Input("N", nf)
+				k.Input("name_len", l)
+				var ms []func() ([]byte, error)
+				var ws []func(io.Writer) error
+				var want []item
+				for _, rec := range []*bed.BED{first, second} {
+					ms = append(ms, rec.MarshalText)
+					ws = append(ws, rec.Write)
+					want = append(want, item{Key: bedKey(bedExpected(rec))})
+				}
+				text := heldMarshalCheck(k, ms, ws)
+				got, over := collect(codecByName("bed").seq(bytes.NewReader(text)), 5)
+				if over || !sameTrace(got, want) {
+					k.Failf("roundtrip", "records around a buffer-size boundary decoded differently:\n got  %.800s\n want %.800s", traceString(got), traceString(want))
+				}
+				k.Count("records_roundtripped", 2)
+				k.Count("size_sweep_cases", 1)
+				k.Nontrivial([]byte(fmt.Sprint(nf, l)), text[:min(64, len(text))])
+			})
+			idx++
+		}
 	}
 }
